@@ -122,6 +122,16 @@ def run(facts, tr, rep):
                 rep.ob("C14.PANIC-FREE", skey(b, "%s#%d" % (c.name, ordinal(g, c))), True, c.where(),
                        "total conversion %s" % c.name)
                 _check_fallback(tr, rep, b, g, c)
+            elif c.name in ("as_millis", "as_secs", "as_micros", "subsec_millis", "subsec_micros", "from_millis", "from_secs", "from_micros", "as_secs_f32") \
+                    and "Duration" in (c.path or ""):
+                # whole-unit conversions truncate: an interval below the unit collapses to zero and never grows
+                argc = [peel(tr.expand(tr.operand(b, a, c.loc))) for a in c.args]
+                if not all(a[0] == "const" for a in argc):
+                    nsite += 1
+                    rep.ob("C14.PRECISION", skey(b, "%s#%d" % (c.name, ordinal(g, c))), False, c.where(),
+                           "%s truncates to whole units inside the backoff computation: an initial interval below the unit becomes zero for "
+                           "every attempt (never grows, never reaches the cap) and fractional intervals are rounded down before scaling — "
+                           "the delay is no longer initial x multiplier^attempt" % c.name)
             elif c.name == "clamp" and "f64" in (c.path or ""):
                 nsite += 1
                 lo = peel(tr.operand(b, c.args[1], c.loc))
@@ -140,6 +150,27 @@ def run(facts, tr, rep):
                         rep.ob("C14.CAST", skey(b, "cast#%d" % _nth(b, i, "cast")), False, g.where(i, j),
                                "the attempt number is narrowed with `as %s` (from %s): large attempt numbers wrap, e.g. to a negative exponent" % (dst, sty))
     rep.floor("C14.sites", nsite, 3)
+    # ------------------------------------------------------------ CAP-ORIGIN: constructors hand the caller's bounds to the backoff unchanged
+    ncapo = 0
+    for b in facts.crates["tower_resilience_reconnect"].bodies:
+        if b.kind != "fn" or b.j.get("vis") != "pub":
+            continue
+        for c in graph(b).calls():
+            if c.name in ("max_interval", "multiplier", "new") and any(d.startswith("tower_resilience_retry::backoff") for d in c.targets_def() or [c.def_ or ""]):
+                for ai, a in enumerate(c.args):
+                    v = tr.expand(tr.operand(b, a, c.loc))
+                    lfs = [peel(x) for x in leaves(v)]
+                    if all(x[0] in ("const", "fnconst") for x in lfs):
+                        continue
+                    if all(x[0] == "call" and any(d.startswith("tower_resilience_retry::backoff") for d in (tr.call_of(x).targets_def() or [tr.call_of(x).def_ or ""])) for x in lfs):
+                        continue       # the builder receiver (result of the previous call of the chain)
+                    ncapo += 1
+                    ok = all(x[0] in ("param", "const") for x in lfs)
+                    rep.ob("C14.CAP-ORIGIN", skey(b, "%s#%d.arg%d" % (c.name, ordinal(graph(b), c), ai)), ok, c.where(),
+                           "the caller's value is handed to %s unchanged" % c.name if ok else
+                           "the value handed to %s is %s, not the caller's parameter: the policy's delays no longer follow the configured "
+                           "initial interval / cap (e.g. never above max_interval)" % (c.name, show(lfs[0])[:70]))
+    rep.floor("C14.cap-origin-args", ncapo, 3)
     # ------------------------------------------------------------ CAP
     ncap = 0
     for b in seen.values():
